@@ -152,7 +152,7 @@ def _form(draw, g_holder, force_xlsx=False):
         feats.add("misspelled-sheets")
     if any("or_other" in n["c"].get("type", "") for n, _ in model.walk(form["nodes"])) and g.langs:
         feats.add("or-other-translated")
-    if form.get("lists") and g.p("_", 0.3):
+    if form.get("lists") and g.p("_", 0.45):
         # a label with two instance() expressions (documented dynamic label)
         ln = form["lists"][0]["name"]
         qs_ = [n for n, _ in model.walk(form["nodes"]) if n["k"] == "q" and "label" in n["c"] and "calculation" not in n["c"] and "trigger" not in n["c"]
@@ -231,7 +231,7 @@ def _form(draw, g_holder, force_xlsx=False):
 def _cases(draw):
     holder = []
     kind_n = draw(st.integers(0, 19))
-    if kind_n < 9:
+    if kind_n < 7:
         form, wh, feats = _form(draw, holder)
         return {"kind": "seeds", "form": form, "with_headers": wh, "features": feats}
     g0 = gen.G(draw, {})
@@ -245,7 +245,7 @@ def _cases(draw):
         # a form that is rejected: its failure must not poison later conversions
         forms.append({"form": {"nodes": [{"k": "q", "c": {"type": "text", "name": "bad", "label": "see ${nosuch}"}}], "args": {}},
                       "with_headers": True, "features": ["rejected"]})
-    if kind_n < 15:
+    if kind_n < 13:
         steps = [{"f": g0.integer(0, len(forms) - 1), "w": g0.integer(0, 3), "pretty": g0.p("_", 0.3), "regen": g0.pick([0, 0, 1, 2, 4])}
                  for _ in range(g0.integer(3, 9))]
         return {"kind": "history", "forms": forms, "steps": steps}
@@ -256,7 +256,7 @@ def _cases(draw):
         k = g0.integer(2, 4)
         jobs = [g0.integer(0, len(forms) - 1) for _ in range(k)]
         schedule = [[g0.pick([1, 1, 2, 3, 5, 8, 13, 40, 100, 400]), g0.integer(0, k - 1)] for _ in range(g0.integer(3, 40))]
-        picks = [g0.integer(0, 10 ** 6) for _ in range(4)] if g0.p("_", 0.7) else []
+        picks = [g0.integer(0, 10 ** 6) for _ in range(8)] if g0.p("_", 0.8) else []
         return {"kind": "threads", "forms": forms, "jobs": jobs, "schedule": schedule, "w": g0.integer(0, 3), "picks": picks}
     return {"kind": "stress", "forms": forms, "threads": g0.pick([4, 8, 12]), "rounds": g0.integer(2, 4), "w": g0.integer(0, 3)}
 
